@@ -103,12 +103,13 @@ def r2(p, rep):
 
 def r3(p, rep):
     rep.rule("C12.R3", "lexer progress: every path through the scan loop advances the position", "T-MPT over the CFG", floor=1)
-    f = p.func("parse_op", "stage1.parse")
-    cfg = CFG(f.node)
-    ev = LiteralEvaluator(p, f.module)
-    loops = [n for n in walk_no_nested(f.node) if isinstance(n, ast.While)]
+    f0 = p.func("parse_op", "stage1.parse")
+    ev = LiteralEvaluator(p, f0.module)
+    # the scan loop lives in parse_op itself or in a helper it calls (`_tokenize(text)`)
+    loops = [(g, n) for g in common.with_helpers(p, f0) for n in walk_no_nested(g.node) if isinstance(n, ast.While)]
     found = 0
-    for w in loops:
+    for f, w in loops:
+        cfg = common.cfg_of(f)
         t = w.test
         if not (isinstance(t, ast.Compare) and len(t.ops) == 1 and isinstance(t.ops[0], ast.Lt) and isinstance(t.left, ast.Name)):
             continue
